@@ -244,7 +244,15 @@ impl Link {
 
         let (mut i, mut j) = start;
 
+        // a walk visits every (crossing, slot) pair at most once, unless the PD code is malformed 
+        // (an edge label occurring more than twice), in which case it may never return to `start`.
+        let max_steps = 4 * n;
+        let mut steps = 0;
+
         loop {
+            assert!(steps < max_steps, "invalid PD code: edge labels must occur exactly twice.");
+            steps += 1;
+
             f(i, j);
 
             let c = &self.data[i];
